@@ -240,6 +240,17 @@ def c15(run):
     for pat, steps, log, crashed, err in recs:
         if crashed:
             run.mismatches.append(dict(site=f"C15.history/{pat}", kind=vlib.classify_crash(err, 1), detail=f"recorder died on pattern {pat}: {err[-300:]}"))
+        # vacuity guard: every pattern but "single" must really update many different symbols (a recorder that fell back to one symbol
+        # would leave the capacity, long-code and lead histories unexercised without any check going red)
+        if not crashed:
+            syms = set()
+            with open(log) as f:
+                for line in f:
+                    mm = re.search(r'"e":\s*"Upd".*?"x":\s*(\d+)', line)
+                    if mm:
+                        syms.add(int(mm.group(1)))
+            if len(syms) < (1 if pat == "single" else 20):
+                raise MachineryError(f"vacuity: history '{pat}' updated only {len(syms)} distinct symbols")
         v = validate(run, "Trace_Huffman", log, f"C15.history/{pat}", constants={"NSym": 314, "MaxCount": 65535}, what="update history")
     run.sample({"history": "single x 65300", "events": "Upd(x, ok, path) per update, Table(paths of all symbols) every 4096 updates"})
 
